@@ -212,10 +212,13 @@ def pmap(fn, items, nproc=None):
     return out
 
 
+_KNOWN = None
+
+
 class Acc:
     """Per-worker accumulator of coverage counters and violations."""
 
-    MAXV = 40
+    MAXV = 25
 
     def __init__(self):
         self.evaluations = 0
@@ -225,6 +228,8 @@ class Acc:
         self.outcomes = set()
         self.violations = []
         self.nviol = 0
+        self._per_symptom = {}
+        self.known = {}
         self.samples = []
         self.extra = {}
 
@@ -242,8 +247,19 @@ class Acc:
         self.extra[name] = self.extra.get(name, 0) + n
 
     def violation(self, v):
+        # Known findings are matched right here, in the worker, so that EVERY violating case is classified; only
+        # the violations that match no known finding are kept (at most MAXV per symptom) and reported.
+        global _KNOWN
+        if _KNOWN is None:
+            _KNOWN = load_known()
+        entry = match_known(v, _KNOWN)
+        if entry is not None:
+            self.known[entry["id"]] = self.known.get(entry["id"], 0) + 1
+            return
         self.nviol += 1
-        if len(self.violations) < self.MAXV:
+        n = self._per_symptom.get(v.symptom, 0)
+        if n < self.MAXV:
+            self._per_symptom[v.symptom] = n + 1
             self.violations.append(v)
 
     def sample(self, s, cap=3):
@@ -259,6 +275,7 @@ class Acc:
             "outcomes": sorted(self.outcomes, key=str),
             "violations": self.violations,
             "nviol": self.nviol,
+            "known": self.known,
             "samples": self.samples,
             "extra": self.extra,
         }
@@ -273,6 +290,7 @@ def merge(results):
         "outcomes": set(),
         "violations": [],
         "nviol": 0,
+        "known": {},
         "samples": [],
         "extra": {},
     }
@@ -284,6 +302,8 @@ def merge(results):
         tot["samples"].extend(r.get("samples", []))
         for k, n in r.get("extra", {}).items():
             tot["extra"][k] = tot["extra"].get(k, 0) + n
+        for k, n in r.get("known", {}).items():
+            tot["known"][k] = tot["known"].get(k, 0) + n
     return tot
 
 
@@ -298,6 +318,8 @@ def merge_totals(parts):
         tot["samples"].extend(p["samples"])
         for k, n in p["extra"].items():
             tot["extra"][k] = tot["extra"].get(k, 0) + n
+        for k, n in p["known"].items():
+            tot["known"][k] = tot["known"].get(k, 0) + n
     return tot
 
 
@@ -307,15 +329,14 @@ def merge_totals(parts):
 
 def finish(prop, tier, tot, t0, rule, assumptions, bounds, exhaustive=True, extra_cov=None):
     known = load_known()
-    new, seen_known = [], {}
-    for v in tot["violations"]:
-        entry = match_known(v, known)
-        if entry is not None:
-            seen_known.setdefault(entry["id"], [entry, 0])
-            seen_known[entry["id"]][1] += 1
-        else:
-            new.append(v)
-    # violations beyond the per-worker cap were counted but not kept; they cannot be classified
+    if os.environ.get("VERIF_DUMP"):  # debugging aid: all kept violations, one JSON per line
+        with open(os.environ["VERIF_DUMP"], "w") as fh:
+            for v in tot["violations"]:
+                fh.write(json.dumps({"symptom": v.symptom, "features": v.features, "detail": v.detail[:500]}, default=str) + "\n")
+    by_id = {e["id"]: e for e in known}
+    new = list(tot["violations"])
+    seen_known = {fid: [by_id[fid], n] for fid, n in tot["known"].items() if fid in by_id}
+    # violations beyond the per-symptom cap were counted but not kept (all of them are new ones)
     unclassified = tot["nviol"] - len(tot["violations"])
     for fid, (entry, n) in sorted(seen_known.items()):
         print("KNOWN-FINDING: property={} {} [{}; {} matching case(s) this run]".format(
@@ -328,16 +349,14 @@ def finish(prop, tier, tot, t0, rule, assumptions, bounds, exhaustive=True, extr
         if sig in seen_sym:
             continue
         seen_sym[sig] = True
-        if len(paths) >= 10:
-            continue
+        if len(paths) >= 10 and v.symptom in {x.symptom for x in new[:new.index(v)]}:
+            continue  # beyond ten replays only the first case of each further symptom is written out
         path = write_replay(v)
         paths.append(path)
         print("VIOLATION property={} replay={}".format(prop, path))
         print("  symptom={} {}".format(v.symptom, v.detail[:600].replace("\n", "\n    ")))
-    if unclassified > 0 and not new:
-        # Too many violations to classify them all: those kept all matched known findings.
-        print("NOTE: {} further violating case(s) beyond the per-worker cap of {} were not classified".format(
-            unclassified, Acc.MAXV))
+    if unclassified > 0:
+        print("NOTE: {} further new violating case(s) beyond the per-symptom cap were counted but not written out".format(unclassified))
     cov = {
         "evaluations": tot["evaluations"],
         "distinct_nontrivial": tot["nontrivial"],
